@@ -6,7 +6,7 @@ set -u
 E=/tmp/eval
 sync_verif() {
   mkdir -p $E/verif
-  rsync -a --delete --exclude harness/target --exclude .git --exclude 'replays/*' /verif/ $E/verif/
+  rsync -rlpc --delete --exclude harness/target --exclude .git --exclude 'replays/*' /verif/ $E/verif/
   sed -i "s#path = \"/repo#path = \"$E/repo#g" $E/verif/harness/Cargo.toml $E/verif/harness/*/Cargo.toml
 }
 case "$1" in
